@@ -174,6 +174,9 @@ Proof.
     destruct r; simpl; (split; [exact Hc'|]; split; assumption).
   - split; [assumption|]. split; assumption.
   - split; [assumption|]. split; assumption.
+  - split; [assumption|]. split; constructor.
+  - split; [assumption|]. split; assumption.
+  - split; [assumption|]. split; assumption.
 Qed.
 
 Lemma CInv_reach e : reach orc ctxkeys st e -> CInv e.
